@@ -200,6 +200,17 @@ def run(ctx, prop):
 def replay(ctx, prop, path):
     with open(path) as f:
         rec = json.load(f)
+    if "hist" in rec["replay"]:
+        from . import qsreplay
+        r = qsreplay.replay_one(rec["replay"]["hist"])
+        if r.get("ok"):
+            print("replay: the real server now follows this TLC behaviour (%d steps compared)" % r["steps"])
+        else:
+            op = r.get("op", {})
+            ctx.violation("qs replay differs: op=%s fields=%s" % (op.get("op"), ",".join(r.get("differs", [r.get("problem", "?")]))),
+                          "the real queue server does not follow the TLC behaviour at step %s" % r.get("step"),
+                          {"behaviour": [h["last"] for h in rec["replay"]["hist"]], "disagreement": r, "hist": rec["replay"]["hist"]})
+        return
     ops = rec["replay"]["ops"]
     ev, er, ex = qstrace.record(ops, policy_seed=rec["replay"].get("policy_seed", 0))
     if er:
